@@ -331,6 +331,24 @@ theorem level_terminates_of_adequate (ev : PropEval) (votes : Votes) (n : Nat) (
   simp only [hH]
   rfl
 
+open Gen.Divisor in
+/-- **The flat levelling loop can fail to terminate on a tied baseline** (recorded finding
+    `C15-flat-tie-floor-nontermination`).  Modified Sainte-Laguë (first divisor 7/5), votes 1:1:3, 3 seats, party 2 holds
+    3 direct seats.  The baseline is {2: 2, Tie(0,1): 1}: parties 0 and 1 are level on their first quotient 5/7.  The loop
+    needs a house whose result contains `Tie(0,1)` again, but at every later level `1/(2j+1)` of parties 0 and 1 party 2 has
+    the equal quotient `3/(6j+3)`, so only `Tie(0,1,2)` is ever reported (houses 7, 8, 12, 13, … below).  Checked here:
+    40 enlargements do not suffice; the Python run does not return within 20000 evaluator calls.  Termination of the
+    flat calculator with a `Tie` among the floors is therefore not a theorem; `level_terminates` (no `Tie` key) is sharp. -/
+theorem level_flat_tie_witness :
+    haEval (modified_first_coef sainte_lague ((7 : Rat) / 5)) [(0, 1), (1, 1), (2, 3)] 3 [] []
+      = .ok [(.cand 2, 2), (.tie [0, 1], 1)] ∧
+    haEval (modified_first_coef sainte_lague ((7 : Rat) / 5)) [(0, 1), (1, 1), (2, 3)] 8 [] []
+      = .ok [(.cand 0, 1), (.cand 1, 1), (.cand 2, 4), (.tie [0, 1, 2], 2)] ∧
+    levelOverhang (haEval (modified_first_coef sainte_lague ((7 : Rat) / 5))) 40 [(0, 1), (1, 1), (2, 3)] 3 [(2, 3)] []
+      = .error fuelErr := by
+  refine ⟨by decide +kernel, by decide +kernel, by decide +kernel⟩
+
+
 /-! ### the final totals are the proportional distribution of the enlarged house -/
 
 /-- **Final totals = proportional distribution of the enlarged house.**  Highest averages (strictly increasing
